@@ -477,7 +477,20 @@ impl TestCaseConfig {
 /// Renders the value as double-quoted YAML scalar (a JSON string is one), so
 /// that quotes, backslashes, colons, braces etc survive the one-line form
 fn yaml_quoted(value: &str) -> String {
-    serde_json::to_string(value).unwrap_or_else(|_| format!("\"{}\"", value))
+    let quoted = serde_json::to_string(value).unwrap_or_else(|_| format!("\"{}\"", value));
+    // JSON leaves characters as they are that YAML does not allow in a quoted
+    // scalar (DEL, C1 controls, U+FFFE, U+FFFF) or folds like a line break
+    // (NEL, LS, PS); a backtick cannot stand on the opening line of a code block
+    let mut output = String::with_capacity(quoted.len());
+    for ch in quoted.chars() {
+        match ch {
+            '`' | '\u{7f}'..='\u{9f}' | '\u{2028}' | '\u{2029}' | '\u{feff}' | '\u{fffe}' | '\u{ffff}' => {
+                output.push_str(&format!("\\u{:04X}", ch as u32))
+            }
+            _ => output.push(ch),
+        }
+    }
+    output
 }
 
 /// Renders plain looking paths as they are and quotes everything else
